@@ -190,14 +190,20 @@ func windowCheck(ts []int64, iNs, slackNs int64, b int) (int, int, float64, stri
 
 func ms(ns int64) float64 { return math.Round(float64(ns)/1e4) / 100 }
 
-func median(xs []int64) int64 {
+func quantile(xs []int64, q float64) int64 {
 	if len(xs) == 0 {
 		return 0
 	}
 	s := append([]int64(nil), xs...)
 	sort.Slice(s, func(i, j int) bool { return s[i] < s[j] })
-	return s[len(s)/2]
+	k := int(q * float64(len(s)))
+	if k >= len(s) {
+		k = len(s) - 1
+	}
+	return s[k]
 }
+
+func median(xs []int64) int64 { return quantile(xs, 0.5) }
 
 type execRec struct {
 	Hook  string `json:"hook"`
@@ -461,16 +467,24 @@ func runScenario(sc Scenario, hookbin string) (res Result) {
 			ctx, cancel := context.WithTimeout(context.Background(), 8*time.Second)
 			defer cancel()
 			if h.ITicks == 0 {
-				// 3 batches of 100 calls, the fastest batch counts
+				// 3 batches of 100 calls, the fastest batch counts; a call that would have to wait longer than the
+				// batch may take makes the batch count with its full allowance
 				p.min = time.Hour
 				for b := 0; b < 3; b++ {
+					bctx, bcancel := context.WithTimeout(context.Background(), 2*time.Second)
 					s := time.Now()
+					d := time.Duration(0)
 					for i := 0; i < 100; i++ {
-						if hk.RateLimitWait(ctx) != nil {
+						if hk.RateLimitWait(bctx) != nil {
+							d = 2 * time.Second
 							break
 						}
 					}
-					if d := time.Since(s); d < p.min {
+					bcancel()
+					if d == 0 {
+						d = time.Since(s)
+					}
+					if d < p.min {
 						p.min = d
 					}
 				}
@@ -534,7 +548,7 @@ func runScenario(sc Scenario, hookbin string) (res Result) {
 		if h.ITicks == 0 {
 			if p != nil && p.min > 100*time.Millisecond && p.min < time.Hour {
 				fail("C18/unthrottled/limiter-blocks/"+topoOf(sc), h.Name+"/probe",
-					fmt.Sprintf("hook %s has no settings, but 100 direct RateLimitWait calls on its limiter take %s (fastest of 3 batches)", h.Name, p.min),
+					fmt.Sprintf("hook %s has no settings, but 100 direct RateLimitWait calls on its limiter take %s or more (fastest of 3 batches)", h.Name, p.min),
 					map[string]interface{}{"hook": h.Name, "batch_ms": ms(int64(p.min))})
 			}
 			res.Hooks = append(res.Hooks, st)
@@ -608,24 +622,26 @@ func runScenario(sc Scenario, hookbin string) (res Result) {
 				inWait = append(inWait, s.sinceGet)
 			}
 		}
-		res.Control = map[string]interface{}{"execs": len(ce), "gaps": len(gaps), "gap_p50_ms": ms(median(gaps)), "in_wait_p50_ms": ms(median(inWait)), "in_wait_n": len(inWait)}
+		g75, w75 := quantile(gaps, 0.75), quantile(inWait, 0.75)
+		res.Control = map[string]interface{}{"execs": len(ce), "gaps": len(gaps), "gap_p50_ms": ms(median(gaps)), "gap_p75_ms": ms(g75),
+			"in_wait_p50_ms": ms(median(inWait)), "in_wait_p75_ms": ms(w75), "in_wait_n": len(inWait)}
 		for _, n := range []string{ctlA, ctlB} {
 			if p := probes[n]; p != nil && p.min > 100*time.Millisecond && p.min < time.Hour {
 				fail("C18/unthrottled/limiter-blocks/control", n+"/probe",
-					fmt.Sprintf("hook %s has no settings, but 100 direct RateLimitWait calls on its limiter take %s (fastest of 3 batches)", n, p.min),
+					fmt.Sprintf("hook %s has no settings, but 100 direct RateLimitWait calls on its limiter take %s or more (fastest of 3 batches)", n, p.min),
 					map[string]interface{}{"hook": n, "batch_ms": ms(int64(p.min))})
 			}
 		}
 		if len(gaps) >= 6 {
-			g := median(gaps)
-			if g > gapBoundMs*1e6 {
-				detail := fmt.Sprintf("hooks %s/%s have no settings and %d tasks queued back to back in queue %s, but the median pause between the end of one run and the start of the next is %.1f ms over %d runs (generous bound %d ms; a few ms are needed to start a process)",
-					ctlA, ctlB, 2*sc.ControlN, ctlQueue, ms(g), len(ce), gapBoundMs)
-				if len(inWait) < 6 || median(inWait) > inWaitBoundMs*1e6 {
-					fail("C18/unthrottled/delayed", "control/gap", detail+fmt.Sprintf("; in process: median %.1f ms between q.get and the return of RateLimitWait", ms(median(inWait))),
-						map[string]interface{}{"gap_p50_ms": ms(g), "in_wait_p50_ms": ms(median(inWait)), "execs": len(ce)})
+			// third quartile: with one limiter per hook every second run of the alternating pair waits
+			if g75 > gapBoundMs*1e6 {
+				detail := fmt.Sprintf("hooks %s/%s have no settings and %d tasks queued back to back in queue %s, but a quarter of the pauses between the end of one run and the start of the next are longer than %.1f ms (%d runs; generous bound %d ms; a few ms are needed to start a process)",
+					ctlA, ctlB, 2*sc.ControlN, ctlQueue, ms(g75), len(ce), gapBoundMs)
+				if len(inWait) < 6 || w75 > inWaitBoundMs*1e6 {
+					fail("C18/unthrottled/delayed", "control/gap", detail+fmt.Sprintf("; in process: a quarter of the runs spend more than %.1f ms between q.get and the return of RateLimitWait", ms(w75)),
+						map[string]interface{}{"gap_p75_ms": ms(g75), "in_wait_p75_ms": ms(w75), "execs": len(ce)})
 				} else {
-					res.Notes = append(res.Notes, "NOT-REPRODUCED spawn lag: "+detail+fmt.Sprintf("; in process the runs leave RateLimitWait after %.2f ms (median)", ms(median(inWait))))
+					res.Notes = append(res.Notes, "NOT-REPRODUCED spawn lag: "+detail+fmt.Sprintf("; in process three quarters of the runs leave RateLimitWait within %.2f ms", ms(w75)))
 				}
 			}
 		} else {
